@@ -1,11 +1,67 @@
-// Package vatomic mirrors the parts of sync/atomic that package sftp uses.
+// Package vatomic mirrors sync/atomic for the instrumented build: every operation is a scheduling
+// point on the address (or object) it touches, then the real atomic operation is performed.
 package vatomic
 
 import (
 	"sync/atomic"
+	"unsafe"
 
 	"verif/vsched"
 )
+
+func AddInt32(addr *int32, delta int32) int32 {
+	vsched.AtomicPoint(addr, false)
+	return atomic.AddInt32(addr, delta)
+}
+func LoadInt32(addr *int32) int32     { vsched.AtomicPoint(addr, true); return atomic.LoadInt32(addr) }
+func StoreInt32(addr *int32, v int32) { vsched.AtomicPoint(addr, false); atomic.StoreInt32(addr, v) }
+func SwapInt32(addr *int32, v int32) int32 {
+	vsched.AtomicPoint(addr, false)
+	return atomic.SwapInt32(addr, v)
+}
+func CompareAndSwapInt32(addr *int32, o, n int32) bool {
+	vsched.AtomicPoint(addr, false)
+	return atomic.CompareAndSwapInt32(addr, o, n)
+}
+
+// Int32 mirrors atomic.Int32.
+type Int32 struct{ v atomic.Int32 }
+
+func (x *Int32) Load() int32        { vsched.AtomicPoint(x, true); return x.v.Load() }
+func (x *Int32) Store(v int32)      { vsched.AtomicPoint(x, false); x.v.Store(v) }
+func (x *Int32) Swap(v int32) int32 { vsched.AtomicPoint(x, false); return x.v.Swap(v) }
+func (x *Int32) Add(d int32) int32  { vsched.AtomicPoint(x, false); return x.v.Add(d) }
+func (x *Int32) CompareAndSwap(o, n int32) bool {
+	vsched.AtomicPoint(x, false)
+	return x.v.CompareAndSwap(o, n)
+}
+
+func AddInt64(addr *int64, delta int64) int64 {
+	vsched.AtomicPoint(addr, false)
+	return atomic.AddInt64(addr, delta)
+}
+func LoadInt64(addr *int64) int64     { vsched.AtomicPoint(addr, true); return atomic.LoadInt64(addr) }
+func StoreInt64(addr *int64, v int64) { vsched.AtomicPoint(addr, false); atomic.StoreInt64(addr, v) }
+func SwapInt64(addr *int64, v int64) int64 {
+	vsched.AtomicPoint(addr, false)
+	return atomic.SwapInt64(addr, v)
+}
+func CompareAndSwapInt64(addr *int64, o, n int64) bool {
+	vsched.AtomicPoint(addr, false)
+	return atomic.CompareAndSwapInt64(addr, o, n)
+}
+
+// Int64 mirrors atomic.Int64.
+type Int64 struct{ v atomic.Int64 }
+
+func (x *Int64) Load() int64        { vsched.AtomicPoint(x, true); return x.v.Load() }
+func (x *Int64) Store(v int64)      { vsched.AtomicPoint(x, false); x.v.Store(v) }
+func (x *Int64) Swap(v int64) int64 { vsched.AtomicPoint(x, false); return x.v.Swap(v) }
+func (x *Int64) Add(d int64) int64  { vsched.AtomicPoint(x, false); return x.v.Add(d) }
+func (x *Int64) CompareAndSwap(o, n int64) bool {
+	vsched.AtomicPoint(x, false)
+	return x.v.CompareAndSwap(o, n)
+}
 
 func AddUint32(addr *uint32, delta uint32) uint32 {
 	vsched.AtomicPoint(addr, false)
@@ -16,22 +72,124 @@ func StoreUint32(addr *uint32, v uint32) {
 	vsched.AtomicPoint(addr, false)
 	atomic.StoreUint32(addr, v)
 }
+func SwapUint32(addr *uint32, v uint32) uint32 {
+	vsched.AtomicPoint(addr, false)
+	return atomic.SwapUint32(addr, v)
+}
 func CompareAndSwapUint32(addr *uint32, o, n uint32) bool {
 	vsched.AtomicPoint(addr, false)
 	return atomic.CompareAndSwapUint32(addr, o, n)
 }
+
+// Uint32 mirrors atomic.Uint32.
+type Uint32 struct{ v atomic.Uint32 }
+
+func (x *Uint32) Load() uint32         { vsched.AtomicPoint(x, true); return x.v.Load() }
+func (x *Uint32) Store(v uint32)       { vsched.AtomicPoint(x, false); x.v.Store(v) }
+func (x *Uint32) Swap(v uint32) uint32 { vsched.AtomicPoint(x, false); return x.v.Swap(v) }
+func (x *Uint32) Add(d uint32) uint32  { vsched.AtomicPoint(x, false); return x.v.Add(d) }
+func (x *Uint32) CompareAndSwap(o, n uint32) bool {
+	vsched.AtomicPoint(x, false)
+	return x.v.CompareAndSwap(o, n)
+}
+
 func AddUint64(addr *uint64, delta uint64) uint64 {
 	vsched.AtomicPoint(addr, false)
 	return atomic.AddUint64(addr, delta)
 }
 func LoadUint64(addr *uint64) uint64 { vsched.AtomicPoint(addr, true); return atomic.LoadUint64(addr) }
-func AddInt32(addr *int32, delta int32) int32 {
+func StoreUint64(addr *uint64, v uint64) {
 	vsched.AtomicPoint(addr, false)
-	return atomic.AddInt32(addr, delta)
+	atomic.StoreUint64(addr, v)
 }
-func LoadInt32(addr *int32) int32 { vsched.AtomicPoint(addr, true); return atomic.LoadInt32(addr) }
-func AddInt64(addr *int64, delta int64) int64 {
+func SwapUint64(addr *uint64, v uint64) uint64 {
 	vsched.AtomicPoint(addr, false)
-	return atomic.AddInt64(addr, delta)
+	return atomic.SwapUint64(addr, v)
 }
-func LoadInt64(addr *int64) int64 { vsched.AtomicPoint(addr, true); return atomic.LoadInt64(addr) }
+func CompareAndSwapUint64(addr *uint64, o, n uint64) bool {
+	vsched.AtomicPoint(addr, false)
+	return atomic.CompareAndSwapUint64(addr, o, n)
+}
+
+// Uint64 mirrors atomic.Uint64.
+type Uint64 struct{ v atomic.Uint64 }
+
+func (x *Uint64) Load() uint64         { vsched.AtomicPoint(x, true); return x.v.Load() }
+func (x *Uint64) Store(v uint64)       { vsched.AtomicPoint(x, false); x.v.Store(v) }
+func (x *Uint64) Swap(v uint64) uint64 { vsched.AtomicPoint(x, false); return x.v.Swap(v) }
+func (x *Uint64) Add(d uint64) uint64  { vsched.AtomicPoint(x, false); return x.v.Add(d) }
+func (x *Uint64) CompareAndSwap(o, n uint64) bool {
+	vsched.AtomicPoint(x, false)
+	return x.v.CompareAndSwap(o, n)
+}
+
+func AddUintptr(addr *uintptr, delta uintptr) uintptr {
+	vsched.AtomicPoint(addr, false)
+	return atomic.AddUintptr(addr, delta)
+}
+func LoadUintptr(addr *uintptr) uintptr {
+	vsched.AtomicPoint(addr, true)
+	return atomic.LoadUintptr(addr)
+}
+func StoreUintptr(addr *uintptr, v uintptr) {
+	vsched.AtomicPoint(addr, false)
+	atomic.StoreUintptr(addr, v)
+}
+func SwapUintptr(addr *uintptr, v uintptr) uintptr {
+	vsched.AtomicPoint(addr, false)
+	return atomic.SwapUintptr(addr, v)
+}
+func CompareAndSwapUintptr(addr *uintptr, o, n uintptr) bool {
+	vsched.AtomicPoint(addr, false)
+	return atomic.CompareAndSwapUintptr(addr, o, n)
+}
+
+func LoadPointer(addr *unsafe.Pointer) unsafe.Pointer {
+	vsched.AtomicPoint(addr, true)
+	return atomic.LoadPointer(addr)
+}
+func StorePointer(addr *unsafe.Pointer, v unsafe.Pointer) {
+	vsched.AtomicPoint(addr, false)
+	atomic.StorePointer(addr, v)
+}
+func SwapPointer(addr *unsafe.Pointer, v unsafe.Pointer) unsafe.Pointer {
+	vsched.AtomicPoint(addr, false)
+	return atomic.SwapPointer(addr, v)
+}
+func CompareAndSwapPointer(addr *unsafe.Pointer, o, n unsafe.Pointer) bool {
+	vsched.AtomicPoint(addr, false)
+	return atomic.CompareAndSwapPointer(addr, o, n)
+}
+
+// Bool mirrors atomic.Bool.
+type Bool struct{ v atomic.Bool }
+
+func (x *Bool) Load() bool       { vsched.AtomicPoint(x, true); return x.v.Load() }
+func (x *Bool) Store(v bool)     { vsched.AtomicPoint(x, false); x.v.Store(v) }
+func (x *Bool) Swap(v bool) bool { vsched.AtomicPoint(x, false); return x.v.Swap(v) }
+func (x *Bool) CompareAndSwap(o, n bool) bool {
+	vsched.AtomicPoint(x, false)
+	return x.v.CompareAndSwap(o, n)
+}
+
+// Value mirrors atomic.Value.
+type Value struct{ v atomic.Value }
+
+func (x *Value) Load() any      { vsched.AtomicPoint(x, true); return x.v.Load() }
+func (x *Value) Store(v any)    { vsched.AtomicPoint(x, false); x.v.Store(v) }
+func (x *Value) Swap(v any) any { vsched.AtomicPoint(x, false); return x.v.Swap(v) }
+func (x *Value) CompareAndSwap(o, n any) bool {
+	vsched.AtomicPoint(x, false)
+	return x.v.CompareAndSwap(o, n)
+}
+
+// Pointer mirrors atomic.Pointer[T].
+type Pointer[T any] struct{ v atomic.Pointer[T] }
+
+func (x *Pointer[T]) Load() *T     { vsched.AtomicPoint(x, true); return x.v.Load() }
+func (x *Pointer[T]) Store(v *T)   { vsched.AtomicPoint(x, false); x.v.Store(v) }
+func (x *Pointer[T]) Swap(v *T) *T { vsched.AtomicPoint(x, false); return x.v.Swap(v) }
+func (x *Pointer[T]) CompareAndSwap(o, n *T) bool {
+	vsched.AtomicPoint(x, false)
+	return x.v.CompareAndSwap(o, n)
+}
